@@ -701,7 +701,12 @@ impl Scenario for EarlyStop {
          Oracle: no panic, no deadlock, every managed thread finished within the step budget (50 x reference + 5000), \
          exit status in the allowed set, partial -o file = whole packets and a prefix of the expected filtered data; \
          a stdout failure that a view or the writer runs into is noticed (fatal reported or stop flag raised); after the stop event at most one batch of 100 packets + 64 KiB of read-ahead are still \
-         read from the input. A quarter of the check / view command lines carry an (ignored) -o. \
+         read from the input, and no data queue holds more undelivered packets than the largest capacity configured. \
+         1 case in 13: the input never ends (the pipe seam delivers the stream over and over) and the stop condition \
+         (unknown system ID in the first packet / stop event at a drawn step / error cap / stdout going away) is the \
+         only way out: under a fair seeded schedule with queues capped to 1..4 the run must end within 150 000 decision steps (counted from \
+         the stop event where one is injected - at a drawn decision step, or when a drawn number of input bytes has been \
+         delivered, which also reaches a reader that skips packets between two decision steps). A quarter of the check / view command lines carry an (ignored) -o. \
          Non-trivial: >= 3 managed threads. Distinct: (input hash, reference trace hash)."
             .into()
     }
@@ -713,6 +718,9 @@ impl Scenario for EarlyStop {
     }
     fn make(&self, seed: u64, case: u64, tier: Tier) -> Trial {
         let mut rng = Rng::new(seed);
+        if case % 13 == 12 {
+            return make_endless(&mut rng);
+        }
         let stave = rng.chance(1, 4);
         let mut cfg = GenCfg::swarm(&mut rng, stave);
         cfg.n_links = rng.range(1, 8) as usize;
@@ -925,6 +933,161 @@ impl Scenario for EarlyStop {
         };
         Trial::EarlyStop { base, n_points, points_seed: rng.next_u64(), kind, allowed_status: allowed, label }
     }
+}
+
+/// Marks an input that does not end (the pipe seam delivers the stream over and over).
+pub const ENDLESS: u64 = 1 << 40;
+
+/// C17 on an input that never ends (a pipe that keeps delivering): the only way for the run to end is that
+/// the stop condition is noticed by everyone who has to. One stop condition per case: an unknown system ID in
+/// the first packet (fatal, decided outside the reader), a stop event at a drawn step, the error cap, stdout
+/// going away. Fair schedule (seeded random) and queues capped to 1..4, so that the work left at the stop is
+/// small and the step budget (stop + 150 000 decision steps) is far from anything a stopping run needs.
+fn make_endless(rng: &mut Rng) -> Trial {
+    let stave = rng.chance(1, 5);
+    let mut cfg = GenCfg::swarm(rng, stave);
+    cfg.n_links = rng.range(1, 4) as usize;
+    cfg.hbfs = (1, 3);
+    let mut st = gen_conforming(&cfg, rng);
+    let mut extras = CmdExtras { stats_ext: "json".into(), ..Default::default() };
+    let mut exit_code = None;
+    let parts: Vec<String>;
+    let label;
+    let kind;
+    let mut stop_at_step = None;
+    let mut stop_at_input_byte = None;
+    let mut stdout_fail_at = None;
+    let link = Filter::Link(st.links[rng.usize_below(st.links.len())].link_id);
+    match rng.below(4) {
+        0 => {
+            // the first packet names a system the tool does not know
+            let id = loop {
+                let id = *rng.pick(&[0u8, 1, 2, 9, 11, 12, 13, 14, 16, 20, 22, 30, 36, 40, 99, 200, 255]);
+                if crate::t_stream::system_name(id).is_none() {
+                    break id;
+                }
+            };
+            st.packet_mut(0).rdh.system_id = id;
+            match rng.below(4) {
+                0 => {
+                    parts = link.args();
+                    label = "endless stream | unknown system ID | write stdout".to_string();
+                }
+                1 => {
+                    let mut p = link.args();
+                    p.extend(s(&["-o", "@OUT@"]));
+                    parts = p;
+                    label = "endless stream | unknown system ID | write file".to_string();
+                }
+                2 => {
+                    let m = rng.usize_below(4);
+                    parts = s(CHECK_MODES[m]);
+                    label = format!("endless stream | unknown system ID | {}", CHECK_MODES[m].join(" "));
+                }
+                _ => {
+                    let v = VIEW_MODES[rng.usize_below(3)];
+                    parts = s(v);
+                    label = format!("endless stream | unknown system ID | {}", v.join(" "));
+                }
+            }
+            kind = StopKind::Intrinsic;
+        }
+        1 => {
+            let (mut p, l) = random_valid_cmdline(Some(&st), rng, &mut extras);
+            exit_code = extras.exit_code;
+            let fpos = p.iter().position(|a| ["-f", "-F", "-s"].contains(&a.as_str()));
+            let selects_nothing = {
+                let f = crate::t_stream::filter_of_argv(&p);
+                !walk(&st.bytes()).pkts.iter().any(|k| f.matches(&k.rdh))
+            };
+            if rng.chance(1, 2) {
+                // the stop event at a decision step: needs decision steps to keep coming, i.e. a filter (if any)
+                // that selects something - with a value that never occurs the reader skips forever between two steps
+                if selects_nothing {
+                    if let Some(i) = fpos {
+                        p.drain(i..i + 2);
+                        if let Some(o) = p.iter().position(|a| a == "-o") {
+                            p.drain(o..o + 2);
+                        }
+                    }
+                }
+                stop_at_step = Some(1 + rng.below(3000));
+                label = format!("endless stream | stop-event at a step | {l}");
+            } else {
+                // the stop event when so many input bytes were delivered: reaches a reader that is skipping
+                // packets of other links without ever getting to a decision step (1 in 3: a value that never occurs)
+                if let (Some(i), true) = (fpos, rng.chance(1, 3)) {
+                    if p[i] == "-f" {
+                        let used: Vec<u8> = st.links.iter().map(|l| l.link_id).collect();
+                        let absent = (0..=255u8).find(|l| !used.contains(l)).unwrap_or(255);
+                        p[i + 1] = absent.to_string();
+                    }
+                }
+                let span = *rng.pick(&[1u64, 5_000, 1_000_000, 8_000_000]);
+                stop_at_input_byte = Some(1 + rng.below(span));
+                label = format!("endless stream | stop-event at an input byte | {l}");
+            }
+            parts = p;
+            kind = StopKind::StopEvent;
+        }
+        2 => {
+            let every = rng.range(2, 6) as usize;
+            for (k, &(l, p)) in st.order.clone().iter().enumerate() {
+                if k % every == 1 {
+                    st.links[l].packets[p].rdh.bc = 0xdec;
+                }
+            }
+            let m = rng.usize_below(4);
+            let mut p = s(CHECK_MODES[m]);
+            p.extend(s(&["-e", &rng.range(1, 60).to_string()]));
+            if rng.chance(1, 2) {
+                p.push("-m".into());
+            }
+            parts = p;
+            label = format!("endless stream | error-cap | {}", CHECK_MODES[m].join(" "));
+            kind = StopKind::Intrinsic;
+        }
+        _ => {
+            // (filtered data reaches stdout in chunks of 2^20 packets: the first write comes late, 1 case in 6)
+            if rng.chance(5, 6) {
+                let v = VIEW_MODES[rng.usize_below(3)];
+                let mut p = s(v);
+                if rng.chance(1, 2) {
+                    p.push("-d".into());
+                }
+                parts = p;
+                label = format!("endless stream | stdout-fails | {}", v.join(" "));
+            } else {
+                parts = link.args();
+                label = "endless stream | stdout-fails | write stdout".to_string();
+            }
+            stdout_fail_at = Some(rng.below(200_000));
+            kind = StopKind::StdoutFails { errno: if rng.chance(1, 5) { 28 } else { 32 } };
+        }
+    }
+    let mut base = specgen::spec(InputMode::Pipe, &parts, st.bytes());
+    base.custom_checks_toml = extras.checks_toml.clone();
+    base.stats_ext = extras.stats_ext.clone();
+    base.input_repeat = Some(ENDLESS);
+    base.policy = crate::exec::PolicySpec::Random { p_permille: rng.range(100, 500) as u32 };
+    base.sched_seed = rng.next_u64();
+    base.cap_limit = Some(*rng.pick(&[1usize, 2, 4]));
+    base.stop_at_step = stop_at_step;
+    base.io.stop_at_input_byte = stop_at_input_byte;
+    base.io.stdout_fail_at = stdout_fail_at;
+    if let StopKind::StdoutFails { errno } = &kind {
+        base.io.stdout_errno = *errno;
+    }
+    base.expected_steps = 5_000;
+    // (a stop event that waits for an input byte comes after an unknown number of steps: the budget counts from it)
+    base.step_budget = if stop_at_input_byte.is_some() { 3_000_000 } else { stop_at_step.unwrap_or(0) + 150_000 };
+    base.budget_after_stop = Some(150_000);
+    base.timeout_ms = 120_000;
+    let mut allowed = vec![0, 1];
+    if let Some(n) = exit_code {
+        allowed.push(n);
+    }
+    Trial::EarlyStop { base, n_points: 0, points_seed: rng.next_u64(), kind, allowed_status: allowed, label }
 }
 
 // ------------------------------------------------------------------------------------------------
